@@ -129,5 +129,5 @@ def tree_clip_by_global_norm(pytree: PyTree, max_norm: float) -> PyTree:
     A potentially clipped pytree.
   """
   global_norm = tree_l2_norm(pytree)
-  scale = jnp.minimum(1, max_norm / global_norm)
+  scale = jnp.where(global_norm > max_norm, max_norm / global_norm, 1)
   return jax.tree_util.tree_map(lambda t: scale * t, pytree)
